@@ -202,9 +202,12 @@ Proof.
   - inv_some. apply struct_surplus_tail. now apply sf_conn.
   - destruct (n <? rem); inv_some.
     + apply sf_conn; [now apply sf_payl|reflexivity].
-    + match goal with |- Struct (match _ with Some e => response_eof cf ?t e | None => _ end) => assert (S3 : Struct t) end.
-      { destruct (rem <? n); [apply struct_surplus_tail|]; (apply sf_conn; [now apply sf_payl|reflexivity]). }
-      destruct (p_cb _); [now apply struct_response_eof|exact S3].
+    + match goal with |- Struct (if _ then surplus_tail (set_conn ?s3 _ _) _ else _) => assert (S3 : Struct s3) end.
+      { assert (S2 : Struct (set_conn (set_payl s pid (set_p_cb (set_p_eof (set_p_items (s_pay s pid) (p_items (s_pay s pid) ++ [(id, tg)])) true) None))
+                               (g_c g) (set_c_pst (s_conn s (g_c g)) PSHead)))
+          by (apply sf_conn; [now apply sf_payl|reflexivity]).
+        cbn [p_cb set_p_items]. destruct (p_cb _); [now apply struct_response_eof|exact S2]. }
+      destruct (rem <? n); [|exact S3]. apply struct_surplus_tail. now apply sf_conn.
 Qed.
 
 Lemma struct_proc_tok cf s g tk tg s' g' : Struct s -> proc_tok cf s g tk tg = Some (s', g') -> Struct s'.
